@@ -12,7 +12,11 @@
            stream, with the target serial  [ConvergesToReference, TargetSerial, DoneFlag]
      (iii) what the reference rejects raises [Refuses_<why>]; a valid stream raises no error
            and reaches the server's version for every cut [ValidStreamAccepted, ConvergesToTarget]
-   Free: the exception class; refusing a FAULTED stream that the reference would accept
+   The exception class is free, except that the SOA-only UDP answer must be signalled with
+   dns.xfr.UseTCP, the documented class dns.query.inbound_xfr's TCP fallback depends on
+   [UseTcpSignalled].  Traces recorded through dns.query / dns.asyncquery inbound_xfr also
+   carry the request that was sent: make_query / extract_serial_from_query must put the
+   base serial into it [QueryCarriesBaseSerial].  Free: refusing a FAULTED stream that the reference would accept
    (then (i) applies).  With env XFR_STRICT=1 the free choices are pinned to the model and
    the state-machine attributes are compared after every message [StateVars] -- used to
    measure drift, never reported as a violation. *)
@@ -51,6 +55,7 @@ TMsg ==
        /\ Check(t, l, "MessageIndex", e.i = mi)
        /\ Check(t, l, "InitLoaded", LZ(Log[t].init) = script.zone0)
        /\ Check(t, l, "Refuses_" \o why, modelErr => implErr)
+       /\ Check(t, l, "UseTcpSignalled", (why = "usetcp" /\ implErr) => e.exc = "UseTCP")
        /\ Check(t, l, "ValidStreamAccepted", (implErr /\ ~modelErr) => (script.fault.k # "none" /\ ~Strict))
        /\ c' = IF modelErr THEN [c EXCEPT !.err = TRUE, !.why = why]
                ELSE IF implErr THEN [c EXCEPT !.err = TRUE, !.why = "free"]
@@ -69,6 +74,9 @@ TExit ==
        /\ Check(t, l, "ErrorAfterCommit_surplus",
                 ~(c.err /\ c.why = "surplus" /\ z # script.zone0 /\ z = c.pending))
        /\ Check(t, l, "ZoneUnchangedOnError", c.err => z = script.zone0)
+       /\ Check(t, l, "QueryCarriesBaseSerial", HasKey(Log[t], "sent") =>
+                  (/\ Log[t].sent.rdtype = (IF script.req = "ixfr" THEN "IXFR" ELSE "AXFR")
+                   /\ Log[t].sent.serial = script.base))
        /\ Check(t, l, "NoTxnLeftOpen", e.open = 0 /\ ~e.wtxn /\ e.usable)
        /\ Check(t, l, "ConvergesToReference", (~c.err /\ c.done) => (Ref(script).ok /\ z = Ref(script).zone /\ z = c.zone))
        /\ Check(t, l, "TargetSerial", (~c.err /\ c.done) => (HasSoa(z) /\ SoaOf(z)[4] = script.msgs[1].rrs[1][4]))
